@@ -15,7 +15,7 @@
    the DelayedCall armed with that delay at issue fires"; that the reactor fires it on time is Twisted's business. *)
 From AV Require Import Base.Util Model.Framing Proofs.BrokerClientInv.
 From AV Require Model.BrokerClient.
-From AV Require Import Model.ClientReq Proofs.ClientReqC11 Proofs.ClientReqC11b.
+From AV Require Import Model.ClientReq Proofs.ClientReqC11 Proofs.ClientReqC11b Proofs.ClientReqC11c.
 
 (* Issue: a request that is accepted (the call raises nothing) arms exactly one DelayedCall, with delay
    max(timeout, min_timeout) (timeout alone when no minimum is given); from ANY state, for any node, any flags. *)
@@ -69,6 +69,48 @@ Theorem C11_timer_registered : forall g evs i b h q t,
                 /\ In h (BrokerClient.t_fired (BrokerClient.s_t s')).
 Proof. exact c11_bound_any. Qed.
 Print Assumptions C11_timer_registered.
+
+(* Never re-armed: whatever happens later, the closure of a request keeps its owner, and its DelayedCall is either the one
+   it had or none - no fresh, later timer is ever substituted (e.g. on a reconnect). *)
+Theorem C11_timer_never_rearmed : forall g evs evs2 i h q, creq_at (fst (run (init g) evs)) i h = Some q ->
+  exists q', creq_at (fst (run (fst (run (init g) evs)) evs2)) i h = Some q' /\ q_owner q' = q_owner q
+             /\ (q_timer q' = q_timer q \/ q_timer q' = None).
+Proof. exact c11_timer_never_rearmed. Qed.
+Print Assumptions C11_timer_never_rearmed.
+
+(* Reply first, exactly: the response of an unanswered request produces [cancel its DelayedCall; complete it with that
+   response] and nothing else; afterwards it is resolved and unarmed. *)
+Theorem C11_reply_first : forall g evs i b h d t to rid payload cid r,
+  nth_error (c_bcs (fst (run (init g) evs))) i = Some b -> nth_error (b_reqs b) h = Some (mkCreq (Direct d) (Some t) to) ->
+  BrokerClient.s_proto (b_st b) = true -> BrokerClient.s_rxbuf (b_st b) = [] ->
+  Z.of_nat (length (id4 rid ++ payload)) <= MAX_LENGTH -> corr_id (id4 rid ++ payload) = Some cid ->
+  In r (BrokerClient.t_reqs (BrokerClient.s_t (b_st b))) -> BrokerClient.r_id r = cid -> BrokerClient.r_h r = h ->
+  BrokerClient.r_cancelled r = false ->
+  exists C', step (fst (run (init g) evs)) (EReply i rid payload) = (C', [OCancelTimer t; OReq d (RSucc (id4 rid ++ payload))])
+    /\ exists b', nth_error (c_bcs C') i = Some b' /\ In h (BrokerClient.t_fired (BrokerClient.s_t (b_st b')))
+                  /\ nth_error (b_reqs b') h = Some (mkCreq (Direct d) None to).
+Proof. exact c11_reply_first. Qed.
+Print Assumptions C11_reply_first.
+
+(* THE CLAUSE, composed over traces: any history, then an accepted request (it arms DelayedCall t with
+   max(timeout, min_timeout) and nothing else of that kind), then ANY continuation.  At that later moment the request's
+   closure still belongs to it and EITHER t - that very DelayedCall, never another - is still armed, the request is
+   unresolved, and t's firing fails it with RequestTimedOutError in that very step (plus the drop request with
+   disconnect_on_timeout), OR the timer is gone and the request has been resolved. *)
+Theorem C11_issue_to_resolution : forall g evs node expect mint C1 o1 evs2,
+  step (fst (run (init g) evs)) (ESend node expect mint) = (C1, o1) -> (forall k, ~ In (ORaised k) o1) ->
+  filter is_k2 o1 = [OSched (length (c_timers C1) - 1) 2 (delay_of (fst (run (init g) evs)) mint)]
+  /\ exists i h, nth_error (c_direct C1) (length (c_direct (fst (run (init g) evs)))) = Some (i, h)
+     /\ exists b q, nth_error (c_bcs (fst (run C1 evs2))) i = Some b /\ nth_error (b_reqs b) h = Some q
+        /\ q_owner q = Direct (length (c_direct (fst (run (init g) evs))))
+        /\ ((q_timer q = Some (length (c_timers C1) - 1)%nat
+             /\ ~ In h (BrokerClient.t_fired (BrokerClient.s_t (b_st b)))
+             /\ exists C', step (fst (run C1 evs2)) (ETimer (length (c_timers C1) - 1))
+                           = (C', OReq (length (c_direct (fst (run (init g) evs)))) RTimedOut
+                                   :: (if g_dot (c_cfg (fst (run C1 evs2))) && BrokerClient.s_proto (b_st b) then [OLose i] else [])))
+            \/ (q_timer q = None /\ In h (BrokerClient.t_fired (BrokerClient.s_t (b_st b))))).
+Proof. exact c11_issue_to_resolution. Qed.
+Print Assumptions C11_issue_to_resolution.
 
 (* Late reply.  In any reachable state, a response frame whose id belongs to no unanswered, uncancelled request of that
    connection (timed out earlier, never made, already answered): no output at all - nothing fires, nothing is written,
